@@ -933,6 +933,38 @@ func (env *SpecEnv) call(x *ast.CallExpr) tv {
 		ks, _, _ := arrayParts(vis.So)
 		k := env.coerceSort(env.eval(x.Args[0]), ks)
 		return tv{T: sel(vis, k.T), Ty: boolT}
+	case "implements": // implements(x, I): the dynamic type of x implements interface type I
+		a := env.eval(x.Args[0])
+		t := env.resolveType(x.Args[1])
+		if t == nil {
+			sfail("implements: unknown interface type")
+		}
+		if _, ok := t.Underlying().(*types.Interface); !ok || a.T.So != sIface {
+			sfail("implements: needs an interface value and an interface type")
+		}
+		return tv{T: ex.implementsPred(env.st, a.T, t), Ty: boolT}
+	case "visitedset": // the set of keys already yielded by the enclosing map range, as an array
+		if env.st == nil || env.st.lastRange == nil {
+			sfail("visitedset: no map range in scope")
+		}
+		return tv{T: env.st.visited[env.st.lastRange]}
+	case "keyset": // keyset(m): the presence array of map m
+		m := env.eval(x.Args[0])
+		mt, ok := m.Ty.Underlying().(*types.Map)
+		if !ok {
+			sfail("keyset: not a map")
+		}
+		pa := sel(ex.mapPComp(env.heap, mt.Key(), mt.Elem()), m.T)
+		return tv{T: ite(eq(m.T, tNull), Term{"((as const " + pa.So + ") false)", pa.So}, pa)}
+	case "emptyset": // emptyset(Sort)
+		so := env.sortName(x.Args[0])
+		as := arraySort(so, sBool)
+		return tv{T: Term{"((as const " + as + ") false)", as}}
+	case "setadd":
+		a := env.eval(x.Args[0])
+		ks, _, _ := arrayParts(a.T.So)
+		k := env.coerceSort(env.eval(x.Args[1]), ks)
+		return tv{T: store(a.T, k.T, tTrue)}
 	case "bits": // the bit pattern of a value (floats are carried as their IEEE bits)
 		a := env.needTerm(env.eval(x.Args[0]))
 		return tv{T: a.T}
